@@ -505,6 +505,9 @@ def write_evidence(pid, tier, seed, prop, order, results, finding_state, lines, 
     evd = OUT / "evidence"
     evd.mkdir(parents=True, exist_ok=True)
     (evd / f"{pid}.json").write_text(json.dumps(ev, indent=1, default=str))
+    if tier == "thorough":  # kept apart too, so that a later quick run does not erase the record of the deep one
+        (evd / "thorough").mkdir(exist_ok=True)
+        (evd / "thorough" / f"{pid}.json").write_text(json.dumps(ev, indent=1, default=str))
 
 
 def replay_file(pid: str, path: str) -> int:
